@@ -8,6 +8,7 @@
    Session 3: the model carries the run queues (`janet_vm.spawn`), the waiting state of fibers and an event log; the step from
    hand-out order to resume order per receiving fiber is now proved (`per_sender_order`, executions without abandoned waits). -/
 import JanetModel.Thread.EndToEnd
+import JanetModel.Thread.Requeue
 import JanetModel.Thread.SpawnLemmas
 import JanetModel.Thread.Payload
 import JanetModel.Thread.LockCert
@@ -108,6 +109,50 @@ theorem per_sender_order_counterexample :
   decide
 
 example : (run ⟨true, true, true, true, true, true⟩ [.take 0 0, .give 1 1 1, .give 1 1 2, .handle 0, .resume 0, .take 0 5] (init 4)).staleReads = 0 := by
+  decide
+
+/-- ★ per-sender order across a REQUEUED stale hand-off (session 4c).  Situation: item `x` was dispatched to a pending reader
+    that has abandoned its wait; when janet_thread_chan_cb finds the message stale NO other reader is pending (requeue branch,
+    not re-dispatch) and nothing that was given after `x` has left the channel yet (`ReturnPoint`: `x` is the last hand-out,
+    every later give is still queued - any number of them, from any senders).  If the source puts the item back at the HEAD
+    (`requeueHead`, janet_q_push_head) then after the step, and after ANY continuation `acts` (gives, takes, closes, pipe
+    hand-offs, resumptions, any number of loops) in which no further message is found stale, items leave the channel exactly
+    in give order: hand-out log (the returned dispatch discounted) ++ queue = send log.  In particular the later gives of the
+    same sender are handed out AFTER `x`.  `requeueHead = true` is needed: `per_sender_order_requeue_counterexample`.
+    Outside this theorem (known finding reorder-stale-reader): the message is re-dispatched to another pending reader, or a
+    later item was already taken / dispatched before the stale message is handled, or several stale hand-offs are in flight. -/
+theorem per_sender_order_requeue (cfg : Cfg) (hc : cfg.checkSched = true) (hd : cfg.redispatch = true) (hq : cfg.requeue = true)
+    (hh : cfg.requeueHead = true) (s : St) (m : Msg) (x : Item) (h1 : List (Nat × Item)) (hk : m.kind = .read x)
+    (hst : s.sched m.fiber ≠ m.sched) (hp : ReturnPoint s m.fiber x h1) (acts : List Act)
+    (hz : (run cfg acts { cb cfg s m with handed := h1 }).staleReads = (cb cfg s m).staleReads) :
+    let s1 : St := { cb cfg s m with handed := h1 }
+    s1.items = x :: s.items ∧
+      (run cfg acts s1).handed.map Prod.snd ++ (run cfg acts s1).items = (run cfg acts s1).sent := by
+  refine ⟨?_, (run_fifo cfg acts _ hz (requeue_restores_fifo cfg hc hd hq hh s m x h1 hk hst hp)).2⟩
+  rw [cb_requeue cfg s m x hk hc hd hq hst hp.noReader]
+  simp [hh]
+
+/-- the hypotheses of `per_sender_order_requeue` are met by a reachable state with TWO later gives of the same sender queued:
+    fiber 0 waits, abandons, is resumed; sender 9 gives 1 (dispatched to the stale entry), 2 and 3 (queued) -/
+example :
+    let s := run ⟨true, true, true, true, true, true⟩ [.take 0 0, .abandon 0, .resume 0, .give 1 9 1, .give 1 9 2, .give 1 9 3] (init 8)
+    s.flight = [⟨0, 0, 0, .read 1⟩] ∧ s.sched 0 ≠ 0 ∧ s.items = [2, 3] ∧ ReturnPoint s 0 1 [] := by
+  refine ⟨by decide, by decide, by decide, ⟨by decide, by decide, by decide⟩⟩
+
+/-- `requeueHead` is NEEDED (seed C08-8: janet_q_push instead of janet_q_push_head): the same history - one receiver fiber 0
+    abandons its wait, sender 9 gives 1, 2, 3 before the receiver's loop looks at its pipe, no other reader is pending, nothing
+    is taken in between, the message is requeued (one stale read, never re-dispatched: nothing is in flight afterwards and the
+    queue holds all three items) - then fiber 5 takes three times: with the item put back at the head it gets 1, 2, 3; with
+    the item put back at the tail it gets 2, 3, 1 although fiber 9 gave 1 first. -/
+theorem per_sender_order_requeue_counterexample :
+    let pre : List Act := [.take 0 0, .abandon 0, .resume 0, .give 1 9 1, .give 1 9 2, .give 1 9 3, .handle 0]
+    let takes : List Act := [.take 0 5, .resume 0, .take 0 5, .resume 0, .take 0 5, .resume 0]
+    let head := run ⟨true, true, true, true, true, true⟩ (pre ++ takes) (init 8)
+    let tail := run ⟨true, false, true, true, true, true⟩ (pre ++ takes) (init 8)
+    let mid := run ⟨true, false, true, true, true, true⟩ pre (init 8)
+    gaveBy 9 head.log = [1, 2, 3] ∧ gotSeq 5 head.log = [1, 2, 3] ∧
+      gaveBy 9 tail.log = [1, 2, 3] ∧ gotSeq 5 tail.log = [2, 3, 1] ∧
+      mid.staleReads = 1 ∧ mid.flight = [] ∧ mid.items = [2, 3, 1] ∧ mid.readers = [] := by
   decide
 
 /-- per receiving THREAD the order is not kept even without abandoned waits (two fibers of one thread take from one channel):
